@@ -1,8 +1,8 @@
 --------------------------- MODULE Trace_LlcpPdu ---------------------------
 (* Binding of LlcpPdu to nfcpy's codec (src/nfc/llcp/pdu.py): every line of the trace file is one
-   CASE executed on the real code, judged here in one TLC step (variables tid, l as in every Trace_X).
+   CASE executed on the real code, judged here as one TLC state (variables tid, l as in every Trace_X).
 
-   case record (uniform; produced by bind/c11.py):
+   case record (uniform; produced by bind/c11_cases.py):
      id   string
      k    "pdu"   : a PDU object built from the field record f, then encode / len / decode
           "bytes" : the byte string b given to pdu.decode, then encode / len / decode of the result
@@ -13,17 +13,24 @@
      enc  its encoding by nfcpy, len its len()
      ro   outcome of pdu.decode(enc), f2 the fields of the result
 
-   Actions (one per outcome the specification knows):
+   One TLC state per case (tid = index into the batch; l is always 1).  Judge(c) looks for the action of the
+   specification that matches what nfcpy did (field `act` of the verdict):
      DecodeFails   k = "bytes", out = "DecodeError", the reference reading of b is ERR
      DecodeYields  k = "bytes", out = "ok",          the reference reading of b is the PDU f
      Construct     k = "pdu"
-   (the three disjuncts of Judge; "action" = which of them matched) followed in the same evaluation by the post-conditions on the PDU f (invariants of the property):
+   and then evaluates the property's clauses as post-conditions on the PDU f of that step:
      RoundTrip   pdu.decode(pdu.encode(f)) succeeds and has the fields Norm(f)
-     Encoding    enc = Encode(f) (and so Decode(enc) = Norm(f) by the MC theorem, re-checked here)
+     Encoding    enc = Encode(f)   (and Decode(enc) = Norm(f): the MC theorem re-checked at real scale, SpecRoundTrip)
      Length      len = DeclLen(f) = Len(enc)
-     OwnSlice    (DecodeYields only) the outcome must be the reading that takes every aggregated PDU from
-                 its own slice; an outcome that equals DecodeLoose(b) but not Decode(b) fails this one.
-   An outcome "Other:<type>" (IndexError, struct.error, RecursionError, ...) has no action.        *)
+     OwnSlice    (DecodeYields only) the outcome must be the reading that takes every aggregated PDU from its
+                 own slice; an outcome that equals DecodeLoose(b) but not Decode(b) fails this one.
+   An outcome "Other:<type>" (IndexError, struct.error, RecursionError, ...) has no action: the case is rejected
+   with <<"no-action", "decode", "Other:<type>", spec branch>>.  Rejections print <<"STUCK", id, 1, act, why, class>>,
+   everything else <<"ACCEPT", id, class>>; class = (kind, reading that matched, Branch of the reference reading)
+   is what the evidence counts as distinct_nontrivial.
+   Two readings are accepted for frames with an AGF inside an AGF (LlcpPdu D9): Decode (nesting allowed, pdu.py
+   before commit bdd1fd6) and DecodeNoNest (ERR, pdu.py since); a constructed PDU that nests AGFs owes its
+   encoding and length but no round trip under the second reading.                                          *)
 EXTENDS LlcpPdu, Json, IOUtils, TLC, TLCExt
 
 VARIABLES tid, l
@@ -111,9 +118,8 @@ Judge(c) ==
      ELSE Rej(act, <<"result", br, IF c.out = "ok" /\ ~IsErr(dd) THEN Diff(Norm(dd), Norm(c.f)) ELSE <<c.out>>>>,
               <<c.k, "mismatch">> \o br)
 
-(* One TLC state per case.  The judgement is a state predicate (CONSTRAINT Verdict in the cfg), evaluated once
-   per initial state: TLC caches LET / argument values when it evaluates a state predicate, which it does not do
-   inside a next-state action (measured: 60 s instead of 0.1 s for a 500-fold nested aggregate). *)
+(* One TLC state per case: the judgement is a state predicate (CONSTRAINT Verdict in the cfg) that TLC evaluates
+   exactly once per initial state; there are no transitions. *)
 TInit == tid \in 1..Len(Traces) /\ l = 1
 TNext == l = 0 /\ UNCHANGED tvars          \* never enabled: a case is one state
 TSpec == TInit /\ [][TNext]_tvars
